@@ -130,7 +130,7 @@ def gen_case(rnd, prop, tier):
             pots.append(gen.gen_potential(rnd, shape, scale, ninf, [witness[a] for a in cl]))
         pots2 = None
     return dict(engine='E', attrs=attrs, sizes=sizes, cliques=cliques, kind=kind, pots=pots, pots2=pots2, total=total, elim=elim, method=method,
-                rows=rows, rows2=rows2, cache=cache, roundtrip=roundtrip, policy=dict(name=pol, rates=rates, shuffle=shuffle), rng_seed=rnd.getrandbits(32), fold='harness', layout=rnd.choice(['C', 'C', 'C', 'F']))
+                rows=rows, rows2=rows2, cache=cache, roundtrip=roundtrip, policy=dict(name=pol, rates=rates, shuffle=shuffle), rng_seed=rnd.getrandbits(32), fold='harness', layout=rnd.choice(['C', 'C', 'C', 'F']), key_order=rnd.choice([None, None, 'reversed', 'sorted']))
 
 
 def sample_view(case):
